@@ -230,3 +230,47 @@ func vc_C16_union2d_blend_circles() {
 	tol := vfTol(1e-3, 1e-6)
 	vfAssert(vfNot(vfAnd(fast > tol, slow < -tol)), "Union2D with PolyMin: pruned evaluation never reports outside where exhaustive evaluation reports inside")
 }
+
+// Nil operands are dropped without disturbing the pruning of the others: three
+// exact operands with concrete, well separated boxes and nil entries between
+// them, arbitrary query point, the real MinMaxDist2. Operand values are probe
+// values under K2 (outside its box a shape is at least as far as the box) and
+// K4 (a non-empty exact shape is no farther than its box's farthest corner).
+func vc_C16_union2d_nil_operands() {
+	vfTimeouts(3000, 20000)
+	boxes := []Box2{
+		{v2.Vec{X: 0, Y: 0}, v2.Vec{X: 1, Y: 1}},
+		{v2.Vec{X: 10, Y: 0}, v2.Vec{X: 11, Y: 1}},
+		{v2.Vec{X: 0, Y: 10}, v2.Vec{X: 1, Y: 11}},
+	}
+	var ls []*vfLeaf2
+	for i, b := range boxes {
+		ls = append(ls, &vfLeaf2{name: "op" + string(rune('0'+i)), bb: b, flags: vfK2 | vfKE})
+	}
+	var ops []SDF2
+	switch vfCase("nils", 3) {
+	case 0:
+		ops = []SDF2{ls[0], nil, ls[1], ls[2]}
+	case 1:
+		ops = []SDF2{nil, ls[0], ls[1], nil, ls[2]}
+	case 2:
+		ops = []SDF2{ls[0], ls[1], nil, nil, ls[2], nil}
+	}
+	u := Union2D(ops...).(*UnionSDF2)
+	p := v2.Vec{X: vfReal("p.x"), Y: vfReal("p.y")}
+	vfAssume(vfAnd(vfAnd(p.X >= -5, p.X <= 16), vfAnd(p.Y >= -5, p.Y <= 16)))
+	fast := u.Evaluate(p)
+	slow := u.EvaluateSlow(p)
+	for i, l := range ls {
+		far := 0.0
+		for _, c := range boxes[i].Vertices() {
+			d := p.Sub(c).Length2()
+			far = vfMaxF(far, d)
+		}
+		for _, v := range l.v {
+			vfAssume(vfImplies(v > 0, v*v <= far))
+		}
+	}
+	vfReach("union2d with nil operands")
+	vfAssert(vfNearF(fast, slow), "Union2D with nil entries in the operand list: pruned evaluation returns the value of exhaustive evaluation")
+}
